@@ -12,8 +12,10 @@ use sy::sync::dircache::DirectoryCache;
 use sy::sync::resume::{CompletedFile, ResumeState, SyncFlags};
 use syvh::{for_each_case, unhex};
 
-fn t(ns: u64) -> SystemTime {
-    UNIX_EPOCH + Duration::new(ns / 1_000_000_000, (ns % 1_000_000_000) as u32)
+fn t(ns: i64) -> SystemTime {
+    let a = ns.unsigned_abs();
+    let d = Duration::new(a / 1_000_000_000, (a % 1_000_000_000) as u32);
+    if ns >= 0 { UNIX_EPOCH + d } else { UNIX_EPOCH - d }
 }
 
 fn main() {
